@@ -883,4 +883,11 @@ func (e *Enc) encPanic(ins *ssa.Panic, st *State) {
 	errT := types.Universe.Lookup("error").Type().Underlying().(*types.Interface)
 	o.StaticOK = types.Implements(dyn, errT)
 	o.Note = "panic value type " + typeStr(dyn)
+	if !o.StaticOK {
+		o.Model = "panic with a value of type " + typeStr(dyn) + ", which is not an error"
+	}
+	if e.fc != nil && e.fc.NoPanic {
+		k := e.ordinal("safe:nopanic")
+		e.oblige("safe:nopanic", fmt.Sprintf("@%d", k), "", e.guardAt(), "false", ins.Pos(), "nopanic")
+	}
 }
